@@ -198,6 +198,10 @@ class EngineD:
             shape = [g.choice([1, 1, 2, 3, 4]) for _ in range(N)]
             data = np.array([gen_double(g) if g.random() < 0.9 else 0.0 for _ in range(int(np.prod(shape)))]).reshape(shape, order="F")
             return {"kind": kind, "shape": shape, "data": enc(data), "order": g.choice(["F", "C"])}
+        if kind == "sptensor" and g.random() < 0.012:
+            # thousands of stored entries (writers tend to switch to block-wise output), some of them on a very long mode;
+            # regenerated from this recipe rather than stored row by row
+            return {"kind": kind, "shape": [g.choice([2**62, 2**55 + 3, 7000]), 3], "subs": None, "vals": None, "many": {"n": g.choice([4095, 4096, 4097, 5000, 8200]), "step": g.choice([1, 7, 1023])}}
         if kind == "sptensor" and g.random() < 0.12:
             # a very long mode: subscripts that no double can hold exactly
             N = g.randint(1, 3)
@@ -385,6 +389,15 @@ class EngineD:
             data = np.asarray(dec(obj["data"]), dtype=float)
             data = np.asfortranarray(data) if obj.get("order", "F") == "F" else np.ascontiguousarray(data)
             return ttb.tensor(data, copy=True), {"kind": k, "shape": tuple(obj["shape"]), "data": np.array(data, copy=True)}
+        if k == "sptensor" and obj.get("many"):
+            shape = tuple(obj["shape"])
+            n, st = obj["many"]["n"], obj["many"]["step"]
+            if shape[0] < n * st + 10:
+                st = 1
+            first = np.array([shape[0] - 1 - i * st for i in range(n)], dtype=np.int64)
+            subs = np.stack([first, np.arange(n, dtype=np.int64) % shape[1]], axis=1)
+            vals = (np.arange(n, dtype=float) * 0.001953125 + 1.25).reshape(-1, 1)
+            return ttb.sptensor(subs.copy(), vals.copy(), shape), {"kind": k, "shape": shape, "subs": subs, "vals": vals}
         if k == "sptensor":
             shape = tuple(obj["shape"])
             vals = np.asarray(dec(obj["vals"]), dtype=float).reshape(-1, 1)
@@ -550,7 +563,7 @@ class EngineD:
                     return V("values_bit_for_bit", "empty sparse tensor came back with entries")
                 return None
             if gs.shape != truth["subs"].shape or not np.array_equal(gs, truth["subs"]):
-                return V("subscripts_and_order_preserved", f"subscripts {gs.tolist()} vs {truth['subs'].tolist()}")
+                return V("subscripts_and_order_preserved", f"subscripts {gs.tolist()[:12]} vs {truth['subs'].tolist()[:12]}" + (" ..." if gs.shape[0] > 12 else ""))
             if not same_bits(np.asarray(got.vals, dtype=np.float64).reshape(-1, 1), truth["vals"]):
                 return V("values_bit_for_bit", f"sparse values {np.asarray(got.vals).reshape(-1).tolist()} vs {truth['vals'].reshape(-1).tolist()}")
         elif k == "ktensor":
